@@ -5,7 +5,7 @@ import random
 from .. import astx, hooks, modgen, probe
 from ..core import REPO
 
-N_FILES = {"quick": 16, "thorough": 12500}
+N_FILES = {"quick": 40, "thorough": 12500}
 TIME_BUDGET = {"quick": 60, "thorough": 270}
 META = {
     "rule": "generated python files (real files, imported, linecache sees them) with 25-45 operator call sites each; every lambda body is "
